@@ -64,6 +64,7 @@ class Prop(G.InputPropBase):
             data = b"".join(G.item_bytes(i) for i in items) + b"x"
             cs.append(Case("I " + split_runs(data), sweep="every-split", cfgs=["C06"], tag="every-split"))
             cs.append(Case("I " + split_runs(G.DIRTY + data), sweep="every-split-dirty", cfgs=["C06"], tag="every-split"))
+            cs.append(Case("J " + split_runs(data), sweep="every-split-multiplexed", cfgs=["C06"], tag="every-split"))
         # deliveries interleaved with output-side operations on the same terminal (resize notification, drawing):
         # the partition is still a partition of the same stream
         OPS = ["@sz.10.5", "@sz.80.24", "@we", "@mv.1.1", "@er", "@hc"]
@@ -74,6 +75,17 @@ class Prop(G.InputPropBase):
                 runs.append("%s,%s,%s" % (G.hx(data[:cut]), OPS[(cut + len(data)) % len(OPS)], G.hx(data[cut:])))
             runs.append(G.hx(data))
             cs.append(Case("I " + " / ".join(runs), sweep="every-split-with-output-ops", cfgs=["C06"], tag="split-with-ops"))
+        # wall-clock time passing between two deliveries that cut an item (a slow link, a user who pauses after ESC): the
+        # decoder has no notion of time
+        k = 0
+        for state, pre in G.PREFIXES:
+            if state == "idle" or (tier == "quick" and k >= 14):
+                continue
+            k += 1
+            suffix = b"[1;2Ax" if pre.endswith(b"\x1b") else b"1;2~x"
+            whole = pre + suffix
+            ms = 130 if tier == "quick" else 600
+            cs.append(Case("I %s,@sl.%d,%s / %s" % (G.hx(pre), ms, G.hx(suffix), G.hx(whole)), sweep="pause-inside-an-item", cfgs=["C06"], tag="pause"))
         for state, pre in G.PREFIXES:
             for b in range(256):
                 suffix = b"1;2~x"
@@ -100,7 +112,9 @@ class Prop(G.InputPropBase):
                     G.chunkings(rng, data, "whole")]
             if 0 < len(data) <= 80:
                 runs.insert(3, "!" + G.chunkings(rng, data, "bytes"))
-            cs.append(Case("I " + " / ".join(runs), cfgs=["C06"], tag=tag))
+            # every third case keeps ALL the runs alive at once on one thread and takes their deliveries in turn (kind `J`: a
+            # server loop multiplexing several connections): a decoder must not share scratch with another decoder
+            cs.append(Case(("J " if i % 3 == 0 else "I ") + " / ".join(runs), cfgs=["C06"], tag=tag + (":multiplexed" if i % 3 == 0 else "")))
         # single deliveries that complete very many tokens (a paste): 1 callback per delivery however many tokens
         big = [b"a" * n for n in (1023, 1024, 1025, 2048, 5000)]
         big.append((b"\x1b[A" + b"b" + b"\r\n") * 700)
